@@ -415,6 +415,58 @@ func TestC02_Words(t *testing.T) {
 						a.A = bigToWords(v, n)
 					}
 				}
+			} else if op == "div" && ir(t, 0, 2, "knuth") == 0 {
+				// the inputs for which the second correction of a quotient-digit estimate exists (Knuth 4.3.1 D3/D6):
+				// a divisor whose normalised top word is 2^63 (+ a little) over an all-ones word, and a dividend
+				// q*divisor + r whose quotient words are 2^64-1-delta. Random words reach these branches with
+				// probability about 2^-62; the statement coverage of int.go showed they were never executed.
+				m := ir(t, 2, n, "divisorWords")
+				ow := make([]uint64, n)
+				ow[m-1] = 0x8000000000000000 + uint64(ir(t, 0, 2, "topPlus"))
+				for i := 0; i < m-1; i++ {
+					switch ir(t, 0, 2, "lowKind") {
+					case 0:
+						ow[i] = ^uint64(0) - uint64(ir(t, 0, 2, "lowMinus"))
+					case 1:
+						ow[i] = 0x8000000000000000 + uint64(ir(t, 0, 2, "lowPlus"))
+					default:
+						ow[i] = u64(t, "lowWord")
+					}
+				}
+				o := wordsToBig(ow)
+				o.Rsh(o, uint(ir(t, 0, 63, "denormalise")))
+				if ir(t, 0, 3, "oddify") == 0 {
+					o.Or(o, ref.One)
+				}
+				qn := ir(t, 1, n-m+1, "quotientWords")
+				qw := make([]uint64, qn)
+				for i := range qw {
+					if ir(t, 0, 3, "qKind") == 0 {
+						qw[i] = u64(t, "qWord")
+					} else {
+						qw[i] = ^uint64(0) - uint64(ir(t, 0, 3, "qMinus"))
+					}
+				}
+				q := wordsToBig(qw)
+				v := new(big.Int).Mul(q, o)
+				switch ir(t, 0, 4, "rem") {
+				case 1:
+					v.Add(v, ref.One)
+				case 2:
+					v.Add(v, new(big.Int).Sub(o, ref.One))
+				case 3:
+					v.Add(v, new(big.Int).Rsh(o, 1))
+				case 4:
+					v.Add(v, new(big.Int).Sub(o, big.NewInt(2)))
+				}
+				lim := new(big.Int).Lsh(ref.One, uint(w))
+				for v.Cmp(lim) >= 0 {
+					v.Rsh(v, 1)
+				}
+				if o.Sign() > 0 {
+					a.A, a.B = bigToWords(v, n), bigToWords(o, n)
+					S("C02", "word-primitives").Class("div:knuth-hard")
+				}
 			} else if op == "div" && ir(t, 0, 2, "closeTop") == 0 {
 				// divisor's top word just below / equal to the dividend's: quotient-estimate correction
 				for i := n - 1; i >= 0; i-- {
